@@ -812,6 +812,8 @@ type snapshot struct {
 	rt        string
 	finalized map[int]string // input index -> single-input serialization
 	proj      string
+	hasPsigs  bool   // some input carries a partial signature
+	locktime  uint32 // Locktime() before the step
 }
 
 func runStep(f func(p *psetv2.Pset) error, p *psetv2.Pset) (out string) {
